@@ -852,7 +852,8 @@ func processStructProvider(fset *token.FileSet, info *types.Info, call *ast.Call
 	}
 	if allFields(call) {
 		for i := 0; i < st.NumFields(); i++ {
-			if isPrevented(st.Tag(i)) {
+			if isPrevented(st.Tag(i)) || st.Field(i).Name() == "_" {
+				// Blank fields cannot be set.
 				continue
 			}
 			f := st.Field(i)
@@ -1096,6 +1097,10 @@ func checkField(f ast.Expr, st *types.Struct) (*types.Var, error) {
 		return nil, fmt.Errorf("%v must be a string with the field name", f)
 	}
 	for i := 0; i < st.NumFields(); i++ {
+		if st.Field(i).Name() == "_" {
+			// Blank fields can be neither set nor read.
+			continue
+		}
 		if strconv.Quote(st.Field(i).Name()) == b.Value {
 			if isPrevented(st.Tag(i)) {
 				return nil, fmt.Errorf("%s is prevented from injecting by wire", b.Value)
